@@ -115,7 +115,7 @@ impl Sys {
             }
             if p.appends {
                 for &n in &p.ns {
-                    for mode in 1..=6u8 {
+                    for mode in 1..=8u8 {
                         v.push(RAct::RefillVia(n, mode));
                     }
                 }
@@ -247,9 +247,19 @@ impl Sys {
                                 done += k;
                             }
                         }
-                        _ => {
+                        6 => {
                             let l = self.buf.len();
                             self.buf.resize(l + n, fill)
+                        }
+                        7 => {
+                            // zero fill (a zero-fill fast path is a different code path)
+                            let l = self.buf.len();
+                            self.buf.resize(l + n, 0)
+                        }
+                        _ => {
+                            // Extend<Bytes> with one static chunk
+                            static POOL: [u8; 8192] = [0x5B; 8192];
+                            self.buf.extend([bytes::Bytes::from_static(&POOL[..n.min(8192)])])
                         }
                     }
                 });
@@ -538,7 +548,7 @@ pub fn explore(p: &Params, rep: &mut Report) -> Outcome {
                 // (3) a reserve on an empty handle that is alone on a large-enough buffer never allocates
                 // (only entry points that start with one reserve(n) on the still empty handle: an Extend with lower
                 // bound 0 and the chunk_mut loop reserve piecemeal, on a handle that is no longer empty)
-                if let RAct::Refill(n) | RAct::RefillVia(n, 1) | RAct::RefillVia(n, 3) | RAct::RefillVia(n, 4) | RAct::RefillVia(n, 6) = a {
+                if let RAct::Refill(n) | RAct::RefillVia(n, 1) | RAct::RefillVia(n, 3) | RAct::RefillVia(n, 4) | RAct::RefillVia(n, 6) | RAct::RefillVia(n, 7) | RAct::RefillVia(n, 8) = a {
                     if was_empty_alone && !qlen_over && alloc_size >= n && any_event {
                         rep.violate(
                             "C18",
@@ -725,7 +735,7 @@ pub fn periodic(p: &Params, period: usize, rounds: usize, rep: &mut Report) -> (
     }
     if p.appends {
         for &n in &p.ns {
-            for mode in 1..=6u8 {
+            for mode in 1..=8u8 {
                 alpha.push(RAct::RefillVia(n, mode));
             }
         }
